@@ -41,7 +41,10 @@ def run_one(m):
         except SyntaxError as e:
             return m, 'STALE', 'mutant does not compile: %s' % e
         env = dict(os.environ, VERIF_REPO=d, VERIF_EVIDENCE_DIR=os.path.join(d, 'evidence'), VERIF_REPLAY_DIR=os.path.join(d, 'replay'))
-        r = subprocess.run([os.path.join(HERE, 'check'), m['property'], '--tier', 'quick'], capture_output=True, text=True, env=env, timeout=3000)
+        cmd = [os.path.join(HERE, 'check'), m['property'], '--tier', 'quick']
+        if m.get('only'):  # run only the contracts whose key contains this text (the edited function); keeps long kill lists affordable
+            cmd += ['--only', m['only']]
+        r = subprocess.run(cmd, capture_output=True, text=True, env=env, timeout=3000)
         out = r.stdout + r.stderr
         kind = m.get('kind', 'kill')
         if kind == 'kill':
@@ -66,7 +69,7 @@ def main():
     with concurrent.futures.ThreadPoolExecutor(jobs) as ex:
         for m, verdict, out in ex.map(run_one, muts):
             good = verdict.startswith('KILLED') or verdict == 'QUIET' or verdict == 'STALE'
-            print('%-12s %-4s %-28s %s' % (verdict, m['property'], m['id'], m.get('what', '')))
+            print('%-12s %-4s %-28s %s' % (verdict, m['property'], m['id'], m.get('what', '')), flush=True)
             if not good:
                 bad += 1
                 print('    ' + out.replace('\n', '\n    ')[-1200:])
